@@ -74,6 +74,25 @@ def make_jobs(rnd, tier):
             jobs.append(dict(cfg=dict(p=p, n=n, res=0, ign=0),
                              prog=[["input", 0, "priv", 0], ["input", 1, "priv", 1], ["input", 2, "priv", 2], ["const", 4, ["int", 1]], ["guarded", 0, [inner]], outer],
                              ins=[c, a, b], op="reuse-after-guard:%s,%s" % (inner[2], outer[2]), kinds="priv/priv/priv", full=1))
+        # an exception raised inside a lazy branch / guarded function, caught by the caller; the program carries on:
+        # what is computed afterwards must be as sound as if the region had never been entered
+        if p > 1000 or tier != "quick":
+            for c in (0, 1):
+                for x in (2, 7):
+                    follow = [["const", 8, ["int", 5]], ["bin", 9, rnd.choice(["lt", "ge", "eq"]), 1, 8]]
+                    # (a) zero divisor inside the branch that is not taken (it raises even there: recorded under C07)
+                    jobs.append(dict(cfg=dict(p=p, n=n, res=0, ign=0), last_only=1, nomodel=1,
+                                     prog=[["input", 0, "priv", 0], ["input", 1, "priv", 1], ["const", 2, ["int", 0]], ["bin", 3, "ne", 0, 2],
+                                           ["try", [["itelazy", 4, 3, [["bin", 5, "truediv", 1, 0]], 5, [], 1]]]] + follow,
+                                     ins=[0, x], op="after-caught-exception:lazy-branch-division", kinds="priv/priv", full=1))
+                    # (b) the program's own exception inside a lazy branch (taken or not), (c) inside a guarded function
+                    jobs.append(dict(cfg=dict(p=p, n=n, res=0, ign=0), last_only=1, nomodel=1,
+                                     prog=[["input", 0, "priv", 0], ["input", 1, "priv", 1], ["const", 2, ["int", 1]], ["bin", 3, "eq", 0, 2],
+                                           ["try", [["itelazy", 4, 3, [["raise", "ValueError"]], 1, [], 1]]]] + follow,
+                                     ins=[c, x], op="after-caught-exception:lazy-branch-raise", kinds="priv/priv", full=1))
+                    jobs.append(dict(cfg=dict(p=p, n=n, res=0, ign=0), last_only=1, nomodel=1,
+                                     prog=[["input", 0, "priv", 0], ["input", 1, "priv", 1], ["try", [["guarded", 0, [["raise", "ValueError"]]]]]] + follow,
+                                     ins=[c, x], op="after-caught-exception:guarded-raise", kinds="priv/priv", full=1))
     return jobs
 
 
@@ -99,7 +118,8 @@ def last_stmt_outs(rec, nstmts):
         return i + 1
     while i < len(t) and t[i][0] >= 0:
         j = span(i); spans.append((i, j)); i = j
-    if len(spans) < nstmts: return []
+    if nstmts is None: nstmts = len(spans)       # the last statement that produced a result
+    if len(spans) < nstmts or not spans: return []
     a, b = spans[nstmts - 1]
     return [e for e in t[a:b] if e[0] in (1, 2, 3)]
 
@@ -115,7 +135,7 @@ def work(arg):
     fixed = order[:nin]
     res = []
     ndst = sum(1 for s_ in job["prog"] if s_[0] not in ("guarded", "ignore")) + sum(len(s_[2]) for s_ in job["prog"] if s_[0] == "guarded")
-    for tag, v, items in last_stmt_outs(rec, ndst):
+    for tag, v, items in last_stmt_outs(rec, None if job.get("last_only") else ndst):
         r = solver.analyse(tr, p, fixed, items, v)
         entry = dict(status=r["status"], tag=tag)
         if r["status"] == "found":
